@@ -1677,3 +1677,73 @@ fn builder_deserialize_headers_are_struct_fields() {
     b.has_headers(true);
     assert!(matches!(b.headers, Headers::All));
 }
+
+// ---------------------------------------------------------------------------------------------
+// Part 3 -- fallback helpers (src/lib.rs deserialize_as_*): see the oracle in the comment below
+// ---------------------------------------------------------------------------------------------
+// C09 -- "fallback helpers" of the property's mechanism list: src/lib.rs deserialize_as_{i64,f64}_or_{none,string} on top of
+// DataType::as_i64 / as_f64 (src/datatype.rs), driven through the crate's own cell deserializer (Kani, real crate; appended to src/de.rs).
+// Oracle = the documented rule "applies as_i64 / as_f64 to the cell value; Some/Ok(value) if it converts, None / Err(text) otherwise,
+// never failing": Int(v) -> v | v as f64; Float(v) -> `v as i64` (toward zero, saturating) | v; Bool -> 0/1; Empty -> None.
+// An error cell is the one case that fails the record (CellError from the cell deserializer), as everywhere else in C09.
+
+#[kani::proof]
+#[kani::unwind(4)]
+#[kani::stub(alloc::fmt::format, format_stub)]
+fn dehelp_i64_or_none() {
+    let pos: (u32, u32) = kani::any();
+    let v: i64 = kani::any();
+    let f: f64 = kani::any();
+    let b: bool = kani::any();
+    let r = crate::deserialize_as_i64_or_none(Data::Int(v).to_cell_deserializer(pos));
+    assert!(matches!(r, Ok(Some(x)) if x == v));
+    let r = crate::deserialize_as_i64_or_none(Data::Float(f).to_cell_deserializer(pos));
+    assert!(matches!(r, Ok(Some(x)) if x == f as i64));
+    let r = crate::deserialize_as_i64_or_none(Data::Bool(b).to_cell_deserializer(pos));
+    assert!(matches!(r, Ok(Some(x)) if x == b as i64));
+    let r = crate::deserialize_as_i64_or_none(Data::Empty.to_cell_deserializer(pos));
+    assert!(matches!(r, Ok(None)));
+    let r = crate::deserialize_as_i64_or_none(Data::Error(crate::CellErrorType::Div0).to_cell_deserializer(pos));
+    assert!(matches!(r, Err(DeError::CellError { err: crate::CellErrorType::Div0, pos: p }) if p == pos));
+}
+
+#[kani::proof]
+#[kani::unwind(4)]
+#[kani::stub(alloc::fmt::format, format_stub)]
+fn dehelp_f64_or_none() {
+    let pos: (u32, u32) = kani::any();
+    let v: i64 = kani::any();
+    let f: f64 = kani::any();
+    let b: bool = kani::any();
+    let r = crate::deserialize_as_f64_or_none(Data::Int(v).to_cell_deserializer(pos));
+    assert!(matches!(r, Ok(Some(x)) if x.to_bits() == (v as f64).to_bits()));
+    let r = crate::deserialize_as_f64_or_none(Data::Float(f).to_cell_deserializer(pos));
+    assert!(matches!(r, Ok(Some(x)) if x.to_bits() == f.to_bits()));
+    let r = crate::deserialize_as_f64_or_none(Data::Bool(b).to_cell_deserializer(pos));
+    assert!(matches!(r, Ok(Some(x)) if x == if b { 1.0 } else { 0.0 }));
+    let r = crate::deserialize_as_f64_or_none(Data::Empty.to_cell_deserializer(pos));
+    assert!(matches!(r, Ok(None)));
+}
+
+#[kani::proof]
+#[kani::unwind(4)]
+#[kani::stub(alloc::fmt::format, format_stub)]
+#[kani::stub(<f64 as alloc::string::ToString>::to_string, to_string_stub)]
+fn dehelp_or_string_numeric() {
+    let pos: (u32, u32) = kani::any();
+    let v: i64 = kani::any();
+    let f: f64 = kani::any();
+    let r = crate::deserialize_as_i64_or_string(Data::Int(v).to_cell_deserializer(pos));
+    assert!(matches!(r, Ok(Ok(x)) if x == v));
+    let r = crate::deserialize_as_i64_or_string(Data::Float(f).to_cell_deserializer(pos));
+    assert!(matches!(r, Ok(Ok(x)) if x == f as i64));
+    let r = crate::deserialize_as_f64_or_string(Data::Int(v).to_cell_deserializer(pos));
+    assert!(matches!(r, Ok(Ok(x)) if x.to_bits() == (v as f64).to_bits()));
+    let r = crate::deserialize_as_f64_or_string(Data::Float(f).to_cell_deserializer(pos));
+    assert!(matches!(r, Ok(Ok(x)) if x.to_bits() == f.to_bits()));
+    // what does not convert is handed back as Err(text), the record itself does not fail
+    let r = crate::deserialize_as_i64_or_string(Data::Empty.to_cell_deserializer(pos));
+    assert!(matches!(r, Ok(Err(_))));
+    let r = crate::deserialize_as_f64_or_string(Data::Empty.to_cell_deserializer(pos));
+    assert!(matches!(r, Ok(Err(_))));
+}
